@@ -91,7 +91,10 @@ func genDgesvd(g *vlib.G) {
 	if lvl(g) >= 2 {
 		sq = append(sq, 74, 76, 129, 150, 200)
 	}
-	stockFams := []family{genFamilies[0], genFamilies[1], genFamilies[7], genFamilies[8]}
+	stockFams := []family{genFamilies[0], genFamilies[1], genFamilies[7], genFamilies[8], genFamilies[13]}
+	if lvl(g) >= 1 {
+		sq = append(sq, 12, 20, 40) // even orders for the dqds family
+	}
 	stockLds := [][3]int{{0, 0, 0}, {2, 1, 3}}
 	shapes := [][2]int{}
 	for _, n := range sq {
@@ -366,7 +369,7 @@ func genDgebrd(g *vlib.G) {
 	for m := 0; m <= lim; m++ {
 		for n := 0; n <= lim; n++ {
 			for _, p := range profs {
-				plan = append(plan, cfg{m, n, p, genFamilies[:13]})
+				plan = append(plan, cfg{m, n, p, genFamilies[:14]})
 			}
 		}
 	}
@@ -909,6 +912,32 @@ func checkBidiag(t *vlib.T, n int, d0, e0 []float64, uplo blas.Uplo, ldx int, cm
 			}
 			chk(t, "direct-lasq1-s-vs-jacobi", ratio(maxDiff(d, oracle), dim, nrm), thresh, ctx0)
 		}
+		// Dlasq2 on the qd array of B (at unit scale: the array holds squares): z[2i] = d_i^2,
+		// z[2i+1] = e_i^2; it returns the eigenvalues sigma_i^2 of BᵀB in z[0:n], descending.
+		if se := scaleExp(b); se == 0 {
+			z := make([]float64, 4*n)
+			for i := range d0 {
+				z[2*i] = d0[i] * d0[i]
+				if i < len(e0) {
+					z[2*i+1] = e0[i] * e0[i]
+				}
+			}
+			if !call(t, "Dlasq2 "+ctx0, func() { info = impl.Dlasq2(n, z) }) {
+				return false
+			}
+			if info != 0 {
+				t.Failf("Dlasq2 info=%d [%s]", info, ctx0)
+			} else {
+				sq := make([]float64, n)
+				for i := range sq {
+					sq[i] = oracle[i] * oracle[i]
+				}
+				if !descendingNonneg(z[:n]) {
+					t.Failf("Dlasq2: eigenvalues not non-negative descending: %v [%s]", z[:n], ctx0)
+				}
+				chk(t, "direct-lasq2-s2-vs-jacobi", ratio(maxDiff(z[:n], sq), dim, nrm*nrm), thresh, ctx0)
+			}
+		}
 	}
 	// companion run accumulating U only: reference for Qᵀ*C in every other call
 	var uref *M
@@ -1073,7 +1102,117 @@ func bidiagSpecial(n int) (names []string, ds, es [][]float64) {
 	return
 }
 
+// bidiagDqds lists bidiagonal matrices that steer the dqds algorithm (values-only
+// path: Dlasq1..6) through its flip, split and deflation branches: nearly
+// diagonal with graded ends and one small interior diagonal entry near either
+// end (the in-loop reversal of an unreduced block), reverse-graded, tiny interior
+// entries, clusters, and the same inside a block of a split matrix.
+func bidiagDqds(n int) (names []string, ds, es [][]float64) {
+	base := func() (d, e []float64) {
+		d, e = make([]float64, n), make([]float64, max(0, n-1))
+		for i := range d {
+			d[i] = 1 + 0.01*float64(i%3)
+		}
+		for i := range e {
+			e[i] = 0.05 - 0.01*float64(i%2)
+		}
+		return
+	}
+	add := func(name string, d, e []float64) { names, ds, es = append(names, name), append(ds, d), append(es, e) }
+	for _, pos := range []int{1, 2} {
+		for _, small := range []float64{1e-2, 1e-3, 1e-5} {
+			if pos >= n-1 {
+				continue
+			}
+			d, e := base()
+			d[0], d[n-1], d[pos] = 3, 2, small
+			add(fmt.Sprintf("small-near-top(pos=%d,%g)", pos, small), d, e)
+			// mirrored: small entry near the bottom, heavy end first
+			d2, e2 := base()
+			d2[0], d2[n-1], d2[n-1-pos] = 2, 3, small
+			add(fmt.Sprintf("small-near-bottom(pos=%d,%g)", pos, small), d2, e2)
+		}
+	}
+	{
+		d, e := base()
+		if n > 2 {
+			d[n/2] = 1e-8
+		}
+		add("tiny-interior", d, e)
+	}
+	{
+		d, e := base()
+		for i := range d {
+			d[i] = 1 + float64(i%4)*1e-7
+		}
+		for i := range e {
+			e[i] = 1e-3
+		}
+		add("clusters", d, e)
+	}
+	{
+		d, e := base()
+		for i := range d {
+			d[i] = math.Ldexp(1, -i)
+		}
+		add("graded-diag", d, e)
+		d2, e2 := base()
+		for i := range d2 {
+			d2[i] = math.Ldexp(1, i-n)
+		}
+		add("reverse-graded-diag", d2, e2)
+	}
+	if n >= 6 {
+		// a split matrix whose second block is the small-near-top matrix of order n - n/3
+		d, e := base()
+		h := n / 3
+		e[h-1] = 0
+		d[h], d[n-1] = 3, 2
+		if h+1 < n-1 {
+			d[h+1] = 1e-3
+		}
+		add("split+small-near-top", d, e)
+	}
+	return
+}
+
 func genDbdsqrSpecial(g *vlib.G) {
+	// dqds-steering families at even and odd orders up to 40
+	for _, n := range p3(g, []int{8, 12, 13, 20}, []int{4, 6, 8, 9, 10, 12, 13, 20, 21, 40}, append(vlib.Ints(3, 24), 29, 30, 39, 40, 41, 49, 50)) {
+		names, ds, es := bidiagDqds(n)
+		for k := range names {
+			for _, uplo := range []blas.Uplo{blas.Upper, blas.Lower} {
+				n, k, uplo := n, k, uplo
+				kase(g, fmt.Sprintf("Dbdsqr/Dlasq1 n=%d %s uplo=%c", n, names[k], uplo), func(t *vlib.T) {
+					cm := intGeneral(n, 2, 3, lcgFor(92, n, k))
+					checkBidiag(t, n, ds[k], es[k], uplo, 2*(k%2), cm)
+					t.Nontrivial()
+					t.Outcome("dqds-steering")
+				})
+			}
+		}
+	}
+	// magnitude ladder (the moment identities involve S^4, hence +-240 at most)
+	for _, exp := range ladder(g, -240, -200, 200, 240) {
+		for _, n := range []int{3, 6} {
+			names, ds, es := bidiagSpecial(n)
+			for _, k := range []int{0, 3, 5} {
+				exp, n, k := exp, n, k
+				kase(g, fmt.Sprintf("Dbdsqr/Dlasq1 n=%d %s uplo=U ld=+2 scale=2^%d", n, names[k], exp), func(t *vlib.T) {
+					d, e := append([]float64(nil), ds[k]...), append([]float64(nil), es[k]...)
+					for i := range d {
+						d[i] *= pow2(exp)
+					}
+					for i := range e {
+						e[i] *= pow2(exp)
+					}
+					checkBidiag(t, n, d, e, blas.Upper, 2, intGeneral(n, 2, 3, lcgFor(93, n, k)))
+					t.Nontrivial()
+					t.Outcome("ladder")
+				})
+			}
+		}
+	}
 	for n := 1; n <= p3(g, 8, 14, 18); n++ {
 		names, ds, es := bidiagSpecial(n)
 		for k := range names {
